@@ -3,7 +3,7 @@ SPEC = {
     "lean_props": ["TunnoxModel.Props.C12"],
     "harness": {
         "pkg": "c12",
-        "shims": {},
+        "shims": {"client": "internal/client"},
         "runs": [{"args": [], "corpus": ""}],
     },
     "rule": ("the real iocopy.Bidirectional / iocopy.UDP between scripted fake endpoints whose every Read is gated by a "
@@ -18,6 +18,9 @@ SPEC = {
              "EOF and error tails, malformed/illegal-length and random streams, a flush-timer tick at every position of "
              "short datagram sequences, prefix/buffer size boundaries (255/256/65535/65536, half-full batch, 300 KB window), "
              "all interleavings of the two goroutines x every combination of endings (eof/err/blocked-until-closed). "
+             "SOCKS5 UDP-ASSOCIATE tunnel codec (udpTunnelConn, the listen-side peer of iocopy.UDP): the real SendPacket "
+             "produces the wire, the real ReceivePacket reads it back; a burst coalesced into ONE read, k records per read, every "
+             "split position, one-byte reads x every cut offset x both tails, prefix-boundary sizes, random bursts/partitions. "
              "SLOW SINKS: every Write of a fake endpoint can stay in progress (the double keeps a REFERENCE to the caller's "
              "slice and copies it only when the scheduler lets the Write complete, as a conn under back-pressure does): "
              "flush-in-progress (ticker / half-full / EOF flush) x datagram arrival x next flush trigger enumerated for short "
@@ -27,7 +30,7 @@ SPEC = {
     "trusted_base": [
         "Lean 4.33 kernel; axioms propext, Classical.choice, Quot.sound only (audited per theorem on every run)",
         "extractor /verif/extract: CopyBufferSize, the window/batch sizes and comparison bounds inside iocopy.UDP, call skeletons of Bidirectional/UDP/runDataCopy regenerated into Gen/Iocopy.lean",
-        "differential harness /verif/harness/c12 (gated fake endpoints, watchdog); compiled Lean driver as model and as holds-oracle",
+        "differential harness /verif/harness/c12 (gated fake endpoints, watchdog) + export shim harness/shims/client (constructs the unexported udpTunnelConn as CreateUDPTunnel does); compiled Lean driver as model and as holds-oracle",
         "goroutines actually exiting, the real 20 ms flush ticker and the sendmmsg path for *net.UDPConn are observed/not modelled: exploration level",
     ],
     "assumptions": [
